@@ -173,6 +173,9 @@ class Check:
                 unmatched.append(g)
             else:
                 matched[hit] = matched.get(hit, 0) + g["n"]
+        if os.environ.get("VP_DUMP"):
+            with open(os.environ["VP_DUMP"], "w") as f:
+                json.dump([{"sig": g["sig"], "n": g["n"], "what": g["what"]} for g in groups.values()], f, indent=1)
         lines = []
         for i, n in sorted(matched.items()):
             lines.append(f"KNOWN-FINDING: property={self.pid} {known[i].get('what', '')} [{n} occurrence(s) this run]")
